@@ -1,7 +1,10 @@
 package props
 
 import (
+	"encoding/json"
 	"fmt"
+	"os"
+	"path/filepath"
 	"strings"
 
 	"verif/internal/core"
@@ -163,6 +166,50 @@ func runC03(r *core.Run) {
 		s.Transitions.Store(s.Evals.Load())
 		s.Done()
 	}
+	// (1b) every named character reference of the HTML5 table (and numeric references to the markup-significant characters)
+	// in every sink: a reference whose expansion contains < > & " must come out escaped wherever it lands
+	refs := c03AllReferences(r)
+	for _, ctx := range sinkContexts {
+		cfgs := ctx.cfgs(false)
+		if len(cfgs) > 2 {
+			cfgs = []core.Cfg{cfgs[0], cfgs[len(cfgs)-1]}
+		}
+		parts := strings.Split(ctx.tmpl, "§")
+		s := r.Sub("refs-"+ctx.name, fmt.Sprintf("template %q with § replaced by each of the %d character references (all HTML5 names from the repository's table plus decimal/hex references to \" & ' < > NUL TAB LF and out-of-range values), alone and as a&ref;b, with and without the semicolon, under %d safe configurations; same oracle", ctx.tmpl, len(refs), len(cfgs)))
+		s.Planned = int64(len(refs) * 3 * len(cfgs))
+		s.Bound = fmt.Sprintf("references=%d forms=3 cfgs=%d", len(refs), len(cfgs))
+		core.ForEachIndex(len(refs), nw, func(w int) func(int) {
+			cvs := make([]*core.Conv, len(cfgs))
+			for i, c := range cfgs {
+				cvs[i] = core.NewConv(c)
+			}
+			var doc []byte
+			return func(ri int) {
+				for _, payload := range []string{refs[ri], "a" + refs[ri] + "b", strings.TrimSuffix(refs[ri], ";") + " c"} {
+					doc = doc[:0]
+					for i, p := range parts {
+						if i > 0 {
+							doc = append(doc, payload...)
+						}
+						doc = append(doc, p...)
+					}
+					for i, cv := range cvs {
+						out := c03Case(s, cv, doc, ctx.name)
+						s.Evals.Add(1)
+						if i == 0 {
+							s.Distinct(core.Hash(out))
+						}
+					}
+				}
+				if ri%(len(refs)/4+1) == 0 {
+					s.AddSample(core.Q(doc))
+				}
+			}
+		}, r.Expired)
+		s.States.Store(s.Evals.Load())
+		s.Transitions.Store(s.Evals.Load())
+		s.Done()
+	}
 	// (2) free words over HTML and nasty tokens to catch sinks not on the list
 	alpha := core.Union(core.AHTML, core.ANasty, []string{"[", "]", "(", ")", "!", "`", "{", "}", "#", "|", "-", ":"})
 	nn := core.Pick(r, 3, 4)
@@ -205,4 +252,27 @@ func replayC03(r *core.Run, v *core.Violation) {
 	c03Case(s, core.NewConv(cfg), v.Input(), "replay")
 	s.Evals.Add(1)
 	s.Done()
+}
+
+// c03AllReferences lists every named reference of the repository's HTML5 table plus numeric references to the characters
+// that matter to markup.
+func c03AllReferences(r *core.Run) []string {
+	var out []string
+	var tbl struct {
+		Data []struct{ Name string } `json:"data"`
+	}
+	if b, err := os.ReadFile(filepath.Join(r.Repo, "_tools", "html5entities.json")); err == nil && json.Unmarshal(b, &tbl) == nil {
+		for _, d := range tbl.Data {
+			out = append(out, "&"+d.Name+";")
+		}
+	}
+	if len(out) == 0 {
+		for _, n := range []string{"lt", "gt", "amp", "quot", "apos", "LT", "GT", "AMP", "QUOT", "nvlt", "nvgt", "nbsp", "Tab", "NewLine", "bne", "nvap"} {
+			out = append(out, "&"+n+";")
+		}
+	}
+	for _, c := range []int{0, 9, 10, 13, 34, 38, 39, 60, 62, 96, 127, 128, 0xD800, 0xFFFE, 0x110000} {
+		out = append(out, fmt.Sprintf("&#%d;", c), fmt.Sprintf("&#x%x;", c), fmt.Sprintf("&#X%X;", c), fmt.Sprintf("&#%07d;", c))
+	}
+	return out
 }
